@@ -194,10 +194,10 @@ Definition global_views (v : variant) (s : state) : list (N * N * option (list N
   ++ (match v with
       | Gt1 => [(10, 0, match sched1 s with
                         | Some (a, b, c, d, e) => Some [a; b; c; d; e]
-                        | None => None end)]
+                        | None => Some [] end)]
       | Gt2 => [(10, 0, match sched2 s with
                         | Some l => Some (N.of_nat (length l) :: flat_map (fun x => [fst x; snd x]) l)
-                        | None => None end)]
+                        | None => Some [0] end)]
       | _ => [] end)
   ++ (if has_nft v then [(11, 0, Some [nft_tok s; nft_nonce s; nft_amt s])] else [])
   ++ (if has_lock v then [(12, 0, Some [lock_pct s]); (13, 0, Some [unlock_epoch s])] else []).
